@@ -39,11 +39,14 @@ class Menu(object):
     self.raise_in_handler = raise_in_handler
 
 
-VAR_KINDS = ('W', 'R', 'RW', 'AUG', 'DEL', 'AND', 'OR', 'NOT', 'IFEXP', 'CMP', 'COMP', 'DEFR', 'DEFW', 'DEFIFW', 'LAM', 'CALL')
-NOVAR_KINDS = ('TUP', 'ATTR', 'SUB', 'RATTR', 'RSUB', 'raise', 'S', 'PASS', 'LAMBDA', 'CALLG', 'CLASS', 'FAIL')
+VAR_KINDS = ('W', 'R', 'RW', 'AUG', 'DEL', 'AND', 'OR', 'NOT', 'IFEXP', 'CMP', 'COMP', 'DEFR', 'DEFW', 'DEFIFW', 'LAM', 'CALL',
+             'CALLK', 'CALLT', 'DEF2R', 'DEF2W', 'CALLP', 'CALLP0')
+NOVAR_KINDS = ('TUP', 'ATTR', 'SUB', 'RATTR', 'RSUB', 'raise', 'S', 'PASS', 'LAMBDA', 'CALLG', 'CLASS', 'FAIL', 'DEFN', 'ALIAS', 'DEFT', 'MKP')
 
 
 def simple_stmts(menu, loop, fin):
+  # fin: False | True (directly in a finally clause: no return / break / continue) | 'loop' (in a loop nested in a
+  # finally clause: break / continue belong to that loop, a return would still leave the finally clause - PEP 765)
   for k in menu.simple:
     if k in VAR_KINDS:
       for v in menu.vars:
@@ -53,10 +56,10 @@ def simple_stmts(menu, loop, fin):
         for v in menu.ret:
           yield ('ret', v)
     elif k == 'brk':
-      if loop and not fin:
+      if loop and fin is not True:
         yield ('brk',)
     elif k == 'cont':
-      if loop and not fin:
+      if loop and fin is not True:
         yield ('cont',)
     elif k == 'CALLH':
       for v in menu.vars[:1]:
@@ -106,10 +109,10 @@ def stmts(k, menu, d, loop, fin):
         for c in nblocks(m - a, menu, d - 1, loop, fin):
           yield ('if', b, c)
   if 'while' in comp:
-    for b in nblocks(m, menu, d - 1, True, False):
+    for b in nblocks(m, menu, d - 1, True, fin and 'loop'):
       yield ('while', b)
   if 'for' in comp:
-    for b in nblocks(m, menu, d - 1, True, False):
+    for b in nblocks(m, menu, d - 1, True, fin and 'loop'):
       for tg in menu.for_targets:
         yield ('for', tg, b)
   if 'with' in comp:
@@ -133,12 +136,12 @@ def stmts(k, menu, d, loop, fin):
           yield ('try', b, None, c)
   if 'whileelse' in comp:
     for a in range(1, m):
-      for b in nblocks(a, menu, d - 1, True, False):
+      for b in nblocks(a, menu, d - 1, True, fin and 'loop'):
         for c in nblocks(m - a, menu, d - 1, loop, fin):
           yield ('while', b, c)
   if 'forelse' in comp:
     for a in range(1, m):
-      for b in nblocks(a, menu, d - 1, True, False):
+      for b in nblocks(a, menu, d - 1, True, fin and 'loop'):
         for c in nblocks(m - a, menu, d - 1, loop, fin):
           yield ('for', 'i', b, c)
   if 'tryexelse' in comp:
@@ -267,6 +270,36 @@ class Render(object):
       e(ind + 1, 'return %s' % s[1])
     elif k == 'LAM':
       e(ind, 'g = lambda: %s * 100 + %d' % (s[1], self.new()))
+    elif k == 'MKP':         # a partial with a bound keyword (needs the helpers; the partial object is local to the run)
+      e(ind, 'p = functools.partial(hk, s=%d)' % self.new())
+    elif k == 'CALLP':       # ... called with a further call-site keyword
+      e(ind, '%s = t(%d, p(%s, o=%d))' % (s[1], self.new(), s[1], self.new()))
+    elif k == 'CALLP0':      # ... and without
+      e(ind, '%s = t(%d, p(%s))' % (s[1], self.new(), s[1]))
+    elif k == 'DEFN':        # a local function of the same name that captures nothing
+      e(ind, 'def g():')
+      e(ind + 1, 'return %d' % self.new())
+    elif k == 'ALIAS':       # the function object stays reachable under another name
+      e(ind, 'k = g')
+    elif k == 'CALLK':
+      e(ind, '%s = t(%d, k())' % (s[1], self.new()))
+    elif k == 'DEFT':        # reaches g transitively through another local function
+      e(ind, 'def g2():')
+      e(ind + 1, 'return g()')
+    elif k == 'CALLT':
+      e(ind, '%s = t(%d, g2())' % (s[1], self.new()))
+    elif k == 'DEF2R':       # the capture sits two function levels down
+      e(ind, 'def g():')
+      e(ind + 1, 'def h():')
+      e(ind + 2, 'return %s * 100 + %d' % (s[1], self.new()))
+      e(ind + 1, 'return h()')
+    elif k == 'DEF2W':
+      e(ind, 'def g():')
+      e(ind + 1, 'def h():')
+      e(ind + 2, 'nonlocal %s' % s[1])
+      e(ind + 2, '%s = %s * 100 + %d' % (s[1], s[1], self.new()))
+      e(ind + 2, 'return %s' % s[1])
+      e(ind + 1, 'return h()')
     elif k == 'CALL':
       e(ind, '%s = t(%d, g())' % (s[1], self.new()))
     elif k == 'CALLH':
@@ -321,6 +354,10 @@ class Render(object):
       tg = s[1]
       if tg == 'xy':
         e(ind, 'for x, y in it2(%d):' % self.new())
+      elif tg == 'nest':
+        e(ind, 'for i, (x, y) in it3(%d):' % self.new())
+      elif tg == 'star':
+        e(ind, 'for x, *y in it2(%d):' % self.new())
       else:
         e(ind, 'for %s in it(%d):' % (tg, self.new()))
       self.loop_directive(ind + 1, self.site)
@@ -345,6 +382,8 @@ class Render(object):
 
 
 HELPERS = '''
+import functools
+
 def h1(a):
     n = 0
     for j in (1, 2, 3):
@@ -366,6 +405,10 @@ def h3(a):
     while a < 30:
         a = h2(a) + 3
     return a
+
+
+def hk(a, s=0, o=0):
+    return a * 10 + s * 3 + o
 '''
 
 
@@ -478,7 +521,7 @@ def skeleton(body):
     elif k == 'while':
       out.append('while(%s%s)' % (skeleton(s[1]), '|else:' + skeleton(s[2]) if len(s) > 2 and s[2] else ''))
     elif k == 'for':
-      out.append('for[%s](%s%s)' % ('i' if s[1] == 'i' else ('xy' if s[1] == 'xy' else 'v'), skeleton(s[2]),
+      out.append('for[%s](%s%s)' % (s[1] if s[1] in ('i', 'xy', 'nest', 'star') else 'v', skeleton(s[2]),
                                     '|else:' + skeleton(s[3]) if len(s) > 3 and s[3] else ''))
     elif k == 'with':
       out.append('with(%s)' % skeleton(s[1]))
